@@ -11,6 +11,8 @@ import Proofs.ShellLine
 import Proofs.ShellScript
 import Proofs.ShellShapes
 import Proofs.ShellJob
+import Proofs.ShellReplace
+import Proofs.ShellJobReplace
 import Gen.Facts
 
 namespace Props.C18
@@ -218,5 +220,126 @@ theorem raw_job_name_on_command_line_splits :
     shToks [0x65, 0x63, 0x68, 0x6F, 0x20, 0x61, 0x26, 0x62]
       = some [Tok.word [0x65, 0x63, 0x68, 0x6F] false, Tok.word [0x61] false, Tok.op [0x26],
               Tok.word [0x62] false] := by decide
+
+/-! ## The byte-level replacer IS the segment-level rendering
+
+`jobScript` builds the script with `strings.NewReplacer` on the raw template text
+(`replaceGo`, `replArgs`: key ↦ value pairs, and for an empty value every line holding the key
+↦ ""); the theorems above speak about `renderScript` on the template cut into segments.
+`wfTemplate` is a decidable condition on the segmentation (no key and no removable line text
+starts inside literal text, exactly the variable's key starts at a variable, a removable line
+starts with literal text or is one variable alone, …) under which the two agree for ALL values. -/
+
+/-- Regenerated obligation: the key table of the model is the source's (`__MRO_` name `__`). -/
+theorem job_keys_match_source : paramKeys = Gen.jobScriptKeys := by decide
+
+/-- Regenerated obligation: every shipped template, as cut by verif-extract, is well formed
+(checked at every byte position of every template; kernel evaluation). -/
+theorem shipped_templates_wellformed :
+    Gen.jobTemplates.all (fun t => wfTemplate Gen.jobScriptKeys maybeEmptyParams t.2) = true := by
+  decide +kernel
+
+/-- General form: for any key table, any well-formed segmented template and ANY values of which
+only the `maybeEmpty` parameters may be empty, Go's replacer applied to the template text
+yields exactly `renderScript`. -/
+theorem replacer_is_renderScript (keys : Keys) (maybeEmpty : List String) (ls : List SegLine)
+    (vals : String → Bytes) (hwf : wfTemplate keys maybeEmpty ls = true)
+    (hne : ∀ nk ∈ keys, nk.1 ∉ maybeEmpty → vals nk.1 ≠ []) :
+    replaceGo (pairsOf keys vals ls) 0 (templateTextK keys ls) = renderScript vals ls :=
+  (Setting.mk hwf hne).replace_eq_render
+
+/-- Non-vacuity: a template with a removable line and two variables is well formed. -/
+example : wfTemplate [("A", [0x5F, 0x41]), ("B", [0x5F, 0x42])] ["B"]
+    [[("", [0x23, 0x20]), ("B", [])], [("", [0x78, 0x20]), ("A", []), ("", [0x79])], []] = true := by
+  decide
+
+/-- `jobScript` on the text of a shipped template = `renderScript` on its segments, for every
+job (the quoted, numeric and command parameters are never empty: `job_vals_ne`). -/
+theorem jobScript_is_renderScript (t : String × List SegLine) (ht : t ∈ Gen.jobTemplates)
+    (j : JobIn) (hT : j.tmpl = templateTextK Gen.jobScriptKeys t.2) :
+    jobScript Gen.shellEscapes j = renderScript (valsOf (params Gen.shellEscapes j)) t.2 := by
+  have h := shipped_templates_wellformed
+  rw [List.all_eq_true] at h
+  have hw := h t ht
+  rw [← job_keys_match_source] at hw hT
+  exact jobScript_eq_render t.2 hw j hT
+
+/-- no_injection for the script `jobScript` really produces (byte-level replacer model) from the
+text of any shipped template: its shell tokens are the value-independent skeleton with every
+given string reproduced as exactly one word. -/
+theorem jobScript_no_injection (t : String × List SegLine) (ht : t ∈ Gen.jobTemplates)
+    (j : JobIn) (hT : j.tmpl = templateTextK Gen.jobScriptKeys t.2) (hj : JobOK j) (hn : NoNl j) :
+    shToks (jobScript Gen.shellEscapes j)
+      = some (expectedToks (givenOf Gen.shellEscapes j) t.2) := by
+  rw [jobScript_is_renderScript t ht j hT]
+  exact jobScript_tokens t ht j hj hn
+
+/-! ## Audit follow-up -/
+
+/-- The regenerated facts the job-script theorems rest on were really extracted from the tree
+(none of them may silently fall back to a committed default). -/
+theorem job_facts_extracted :
+    Gen.shellEscapes_extracted = true ∧ Gen.jobScriptParams_extracted = true ∧
+    Gen.jobScriptKeys_extracted = true ∧ Gen.jobTemplates_extracted = true ∧
+    Gen.jobResOpts_extracted = true := by decide
+
+theorem mem_of_lookup {k v : Bytes} : ∀ {l : List (Bytes × Bytes)}, l.lookup k = some v → (k, v) ∈ l
+  | [], h => by cases h
+  | (a, b) :: t, h => by
+    simp only [List.lookup] at h
+    split at h
+    · rename_i e
+      have : k = a := by simpa using e
+      cases h
+      simp [this]
+    · exact List.mem_cons_of_mem _ (mem_of_lookup h)
+
+/-- LOW-2: the hypothesis `JobOK.res` (the substituted resources option is absent or a
+one-line comment) HOLDS for every job whose `resopt` is one of the shipped `config.json` and
+whose MRO_JOBRESOURCES mapping values contain no newline — `mappedResources j` itself, not
+only `replaceFirst`. -/
+theorem shipped_resopt_gives_JobOK_res (j : JobIn) (h : ∃ p ∈ Gen.jobResOpts, p.2 = j.resOpt)
+    (hm : ∀ kv ∈ j.mappings, (0x0A : UInt8) ∉ kv.2) :
+    mappedResources j = [] ∨ ∃ r, mappedResources j = 0x23 :: r ∧ (0x0A : UInt8) ∉ r := by
+  unfold mappedResources
+  split
+  · exact Or.inl rfl
+  · split
+    · rename_i res hl
+      right
+      obtain ⟨p, hp, he⟩ := h
+      have hd := resopts_are_directives
+      rw [List.all_eq_true] at hd
+      have := hd p hp
+      rw [he] at this
+      split at this
+      · rename_i r heq
+        have hr : (0x0A : UInt8) ∉ r := by simpa using this
+        rw [heq]
+        exact resources_option_is_comment res r hr (hm _ (mem_of_lookup hl))
+      · cases this
+    · exact Or.inl rfl
+
+/-- Non-vacuity with a MAPPED resources option (`__special = highmem`, MRO_JOBRESOURCES
+`highmem:mem_free=64G`, the shipped sge `resopt`): the job is inside the domain and the raw text
+lands in the script as the directive `#$ -l mem_free=64G`. -/
+example : ∃ j : JobIn, JobOK j ∧ NoNl j ∧
+    mappedResources j = [0x23, 0x24, 0x20, 0x2D, 0x6C, 0x20, 0x6D, 0x65, 0x6D, 0x5F, 0x66, 0x72, 0x65,
+      0x65, 0x3D, 0x36, 0x34, 0x47] :=
+  ⟨{ tmpl := [], fqname := [0x49, 0x44], shellName := [0x6D], stdout := [0x2F, 0x6F],
+     stderr := [0x2F, 0x65], workdir := [0x2F, 0x77], threadEnvs := [],
+     envs := [], cmd := [0x2F, 0x70], argv := [], threads := 1, memGB := 1, vmemGB := 0,
+     threadsPerJob := 1, memGBPerJob := 1, extraVmemGB := 0, memGBPerCore := 0, alwaysVmem := false,
+     account := [0x61], special := [0x68, 0x69, 0x67, 0x68, 0x6D, 0x65, 0x6D],
+     mappings := [([0x68, 0x69, 0x67, 0x68, 0x6D, 0x65, 0x6D],
+       [0x6D, 0x65, 0x6D, 0x5F, 0x66, 0x72, 0x65, 0x65, 0x3D, 0x36, 0x34, 0x47])],
+     resOpt := [0x23, 0x24, 0x20, 0x2D, 0x6C, 0x20, 0x5F, 0x5F, 0x52, 0x45, 0x53, 0x4F, 0x55, 0x52, 0x43,
+       0x45, 0x53, 0x5F, 0x5F] },
+   { threadEnvs := by decide, envs := by decide, cmd := by decide, argv := by decide,
+     stdout := by decide, stderr := by decide, workdir := by decide,
+     res := Or.inr ⟨[0x24, 0x20, 0x2D, 0x6C, 0x20, 0x6D, 0x65, 0x6D, 0x5F, 0x66, 0x72, 0x65, 0x65, 0x3D, 0x36,
+       0x34, 0x47], by decide, by decide⟩ },
+   { fqname := by decide, shellName := by decide, stdout := by decide, stderr := by decide,
+     workdir := by decide, account := by decide }, by decide⟩
 
 end Props.C18
